@@ -8,6 +8,8 @@ from vlib.pyround import to_quantum
 
 PID = 'C05'
 PROPERTY_FILE = 'Properties/C05.v'
+# generated model parts (translate/) this property's model / proofs really depend on
+GEN_DEPS = ['QuantityImpl', 'RoundingImpl']
 MODEL_TARGETS = Q.MODEL_TARGETS
 PROOF_TARGETS = ['Proofs/C05Proofs.vo']
 COQ_HEADER = Q.COQ_HEADER
